@@ -4,6 +4,7 @@ package main
 
 import (
 	"fmt"
+	"sync"
 	"go/types"
 	"strconv"
 	"strings"
@@ -577,7 +578,11 @@ func structFieldByName(p *Value, name string) *Value {
 // fieldIndexCache maps "field/numFields" to index for the few std structs we model natively.
 var fieldIndexCache = map[string]int{}
 
-func (in *Interp) registerLayouts() {
+var layoutOnce sync.Once
+
+func (in *Interp) registerLayouts() { layoutOnce.Do(in.registerLayouts1) }
+
+func (in *Interp) registerLayouts1() {
 	regT := func(pkg, typ string, fields ...string) {
 		p := in.prog.ImportedPackage(pkg)
 		if p == nil {
